@@ -338,6 +338,7 @@ func (e *Enc) encode() {
 	if e.pass != 1 {
 		e.finishPosts()
 		e.missingAsserts()
+		e.orderObligations()
 	}
 	// back-edge obligations are generated when the tail block finishes (in finishBlock via terminator)
 }
